@@ -331,8 +331,30 @@ def u12(led, rid, ctx):
     rc = reasons[0]
     nexts = [c for c in f.calls if c.name == "next" and cfg.dominates(rc.bb, c.bb)]
     n = 0
-    for c in f.calls_named("assign_predicate_label"):
-        lab = peel(R.operand(c.args[2]), calls=None)
+    sites = []
+    for c0 in f.calls_named("assign_predicate_label"):
+        lab0 = peel(R.operand(c0.args[2]), calls=None)
+        if lab0.k == "phi":
+            # the label is chosen by a branch and assigned once afterwards: every alternative is judged
+            # at the block that chooses it
+            from ..flow import root_local as _rl
+            ll = _rl(f, c0.args[2])
+            alts = []
+            for d in (f.whole_defs(ll) if ll is not None else []):
+                if d[0] == "stmt" and d[3]["s"] == "assign" and d[3]["rv"]["r"] == "aggregate":
+                    alts.append((R.rvalue(d[3]["rv"]), d[1]))
+            if alts:
+                for lab_, bb_ in alts:
+                    sites.append((c0, lab_, bb_))
+                continue
+        sites.append((c0, lab0, c0.bb))
+
+    class _Site:
+        def __init__(self, c0, bb):
+            self.bb = bb
+            self.span = c0.span
+    for c0, lab, sbb in sites:
+        c = _Site(c0, sbb)
         name = lab.b if lab.k == "agg" else None
         n += 1
         after = cfg.dominates(rc.bb, c.bb)
